@@ -129,7 +129,11 @@ def verus_results(tier):
 
 # --------------------------------------------------------------------------------------------- kani
 def kani_crate_hash(crate):
-    files = vxlib.repo_sources()
+    # kani/leaf compiles exactly two files of /repo (#[path] includes); kani/api links the whole crate
+    if crate == "leaf":
+        files = [os.path.join(REPO, "src", "errors.rs"), os.path.join(REPO, "src", "serialization", "mod.rs"), os.path.join(REPO, "Cargo.lock")]
+    else:
+        files = vxlib.repo_sources() + [os.path.join(REPO, "Cargo.toml"), os.path.join(REPO, "Cargo.lock")]
     for root, _, fs in os.walk(os.path.join(VERIF, "kani", crate)):
         if "target" in root:
             continue
